@@ -5,6 +5,7 @@ mod props;
 mod report;
 mod rng;
 mod run;
+mod sim;
 
 use std::path::PathBuf;
 
